@@ -38,3 +38,13 @@ Proof. vm_compute. reflexivity. Qed.
 Example conflicts_exist :
   length (filter (fun p => conflict (fst p) (snd p)) (list_prod gen_sites gen_sites)) <> 0.
 Proof. vm_compute. discriminate. Qed.
+
+(* C05's premise about the code, read off the same table: every use of the connection's
+   buffered writer (method calls through conn.writer / ResponseWriter.writer) happens with the
+   connection's writer mutex held *)
+Definition uses_writer (a : gsite) : bool := String.eqb (canon_field (g_field a)) "conn.writer*".
+Theorem writer_only_under_mutex :
+  forallb (fun a => implb (uses_writer a) (existsb (String.eqb "conn.writerMu:W") (eff_locks gen_calls a))) gen_sites = true.
+Proof. vm_compute. reflexivity. Qed.
+Example writer_is_used : existsb uses_writer gen_sites = true.
+Proof. vm_compute. reflexivity. Qed.
